@@ -99,6 +99,16 @@ def decision_reads(repo, names):
         for fi in m.functions.values():
             if isinstance(fi.node, ast.Lambda):
                 continue
+            # locals that ARE a piece of persistent state (cache = self.__dict__.setdefault("_bits", {}); tbl = obj._memo):
+            # a test on the local is a test on the state (such locals are updated in place, so def-use substitution skips them)
+            alias = {}
+            for a in ast.walk(fi.node):
+                if isinstance(a, ast.Assign) and len(a.targets) == 1 and isinstance(a.targets[0], ast.Name) and _owner(fi, a):
+                    for x in ast.walk(a.value):
+                        if isinstance(x, ast.Attribute) and x.attr in names and x.attr != "value":
+                            alias.setdefault(a.targets[0].id, x.attr)
+                        elif isinstance(x, ast.Call) and norm(x.func) == "vars" and "__dict__" in names:
+                            alias.setdefault(a.targets[0].id, "__dict__")
             for n in ast.walk(fi.node):
                 if not _owner(fi, n):
                     continue
@@ -125,6 +135,8 @@ def decision_reads(repo, names):
                             nm = x.attr
                         elif isinstance(x, ast.Name) and x.id in names:
                             nm = x.id
+                        elif isinstance(x, ast.Name) and x.id in alias and isinstance(x.ctx, ast.Load):
+                            nm = alias[x.id]
                         elif isinstance(x, ast.Constant) and isinstance(x.value, str) and x.value in names:
                             nm = x.value          # getattr(o, "name", d), hasattr, o.__dict__.get("name"), vars(o)["name"]
                         if nm is not None:
